@@ -24,6 +24,8 @@ P = {
  "C16": ("proof", "Boolean algebra of Satisfy, Neq/NotExists as negations, In/Contains/Exists characterisations and field-reference dereferencing proved in Lean on the model's sat; Satisfy of the real code vs the model on thousands of (criteria, document) pairs, Boolean laws and Go-numeric-kind invariance checked on the implementation.", "Lean proofs on the criteria model; differential Satisfy"),
  "C17": ("proof", "range_scan_exact proved in Lean for the model's IterateRange (byte-level cursor steps over any store around the index, both directions, any index content in the key domain): exactly the in-range entries in (value,id) order; full iteration; Intersect sound for all ranges; IsEmpty sound on the domain. IterateRange/Iterate of the real index package on both backends vs the model and vs a direct oracle, with early stops.", "Lean proof (scan = filter on sorted entries, bytes<->values bridge); differential range scans"),
  "C20": ("proof", "Model operations are total functions returning results or errors; regenerated list of panic-capable source sites (unchecked type assertions, explicit panics) equals the reviewed list (Lean decide); every public call of every stream runs under recover() with a deadline, incl. negated criteria x indexes x missing things x closed handle x three backends and direct document/index API calls. Partial: non-syntactic runtime panics and blocking inside backends are outside the theorem.", "Lean totality + regenerated panic-site facts; recover()-guarded differential"),
+ "C18": ("proof", "Lean model of Normalize on Go values as reflect sees them (every width one constructor, pointers, slices/arrays, maps, structs with clover tags incl. omitempty/embedded/unexported, unsupported kinds): widths canonical, pointers followed (also to times), idempotence on object-free values, struct tag lemmas, unsupported values leave the document unchanged; dotted-path laws get_set_same / get_set_other proved on the model's Set/Get/Has. Go values built by reflection normalised by the real code vs the model; struct round trips. reflect and encoding/json are abstracted.", "Lean model of normalisation + path-law proofs; reflection-built differential"),
+ "C19": ("proof", "Lean model of JSON typing (numbers -> float64 exact within 2^53, times -> RFC 3339 text) wired into the model's Export/Import; theorems: field sets and _id preserved, export is pure, every failing import changes nothing, unreadable / existing-name imports fail. Export files parsed by an independent JSON reader, imported under a new name and compared with model and spec incl. raw dumps; eight failure paths. encoding/json is abstracted (validated by the stream).", "Lean JSON-typing model + atomic import theorems; export/import differential"),
 }
 NOT_YET = {
  "C05": "check not built yet in this session (crash/reopen harness pending)",
